@@ -249,7 +249,7 @@ def _arena_pipeline_rest(tier, focus, variants, key, t0, thorough, wd, bins, mc,
     bad = {p: tagged_index_sets(results, parts, "BAD_" + p) for p in ARENA_PROPS}
     drift = tagged_index_sets(results, parts, "DRIFT")
     aborted = tagged_index_sets(results, parts, "ABORTED")
-    counters = {k: tagged_int(results, k) for k in ("N_EXIT", "N_REALLOC", "N_NEWCHUNK", "N_RECLAIM", "N_FAIL", "N_CLAIMED_OP", "N_ALIGNED", "N_REUSE", "N_PREP", "N_COMMIT", "N_PARTS", "N_AGAIN", "N_TRYWITH_ERR", "N_VALUE", "N_ITERMUT", "N_VEC", "N_VEC_RELOC")}
+    counters = {k: tagged_int(results, k) for k in ("N_EXIT", "N_REALLOC", "N_NEWCHUNK", "N_RECLAIM", "N_FAIL", "N_CLAIMED_OP", "N_ALIGNED", "N_REUSE", "N_PREP", "N_COMMIT", "N_PARTS", "N_AGAIN", "N_TRYWITH_ERR", "N_VALUE", "N_ITERMUT", "N_VEC", "N_VEC_RELOC", "N_VEC_REFUSED", "N_TRYWITH_PANIC", "N_GROWHELPER")}
     shutil.rmtree(d, ignore_errors=True)
     mc.out = mc.out[-4000:]
     if mc2 is not None:
